@@ -164,6 +164,9 @@ pub struct Sprite {
     pub tilesets: Vec<TilesetM>,
     /// attaches to a legacy palette chunk, so a program carrying it needs one
     pub sprite_ud: Option<UserDataM>,
+    /// how the tags are grouped into tags chunks (sizes, in order; empty = one chunk). Within each chunk the tags
+    /// that have user data form a prefix of that chunk's tags.
+    pub tag_chunks: Vec<usize>,
 }
 
 impl Sprite {
@@ -182,6 +185,7 @@ impl Sprite {
             ext_files: vec![],
             tilesets: vec![],
             sprite_ud: None,
+            tag_chunks: vec![],
         }
     }
     pub fn num_frames(&self) -> usize {
